@@ -322,3 +322,66 @@ func H_C15_parseName() {
 	}
 	c15CheckSeen(l.seen, refResolve(dir, "x"), "loader")
 }
+
+// H_C15_sameNameTwoDirs: the same relative spelling ("part.jet", "./part.jet", "../part.jet",
+// literal or computed at run time) used by include / extends / import from templates in
+// two different directories of one Set, rendered one after the other in either order, in
+// production and development mode: each resolves against ITS referring template's
+// directory - the loader (or, when already cached, the cache) is asked for exactly that
+// path, and the output comes from that directory's file.
+//
+//gosym:reach rendered
+func H_C15_sameNameTwoDirs() {
+	kw := ndChoice("kw", 4) // include literal, include computed, extends, import
+	sp := ndChoice("spelling", 3)
+	dev := ndBool("dev")
+	aFirst := ndBool("aFirst")
+	spelling := []string{"part.jet", "./part.jet", "../part.jet"}[sp]
+	var ref string
+	switch kw {
+	case 0:
+		ref = `{{ include "` + spelling + `" }}`
+	case 1:
+		ref = `{{ include n }}`
+	case 2:
+		ref = `{{ extends "` + spelling + `" }}`
+	default:
+		ref = `{{ import "` + spelling + `" }}{{ yield pb() }}`
+	}
+	part := func(tag string) string { return `{{ block pb() }}P` + tag + `{{ end }}` }
+	l := &c15Loader{files: map[string]string{
+		"/a/page.jet": ref, "/b/c/page.jet": ref,
+		"/a/part.jet": part("a"), "/b/c/part.jet": part("bc"), "/part.jet": part("root"), "/b/part.jet": part("b"),
+	}}
+	set := NewSet(l, DevelopmentMode(dev))
+	pages := []string{"/a/page.jet", "/b/c/page.jet"}
+	wants := [][]string{{"Pa", "Pa", "Proot"}, {"Pbc", "Pbc", "Pb"}}
+	wantPath := [][]string{{"/a/part.jet", "/a/part.jet", "/part.jet"}, {"/b/c/part.jet", "/b/c/part.jet", "/b/part.jet"}}
+	order := []int{0, 1}
+	if !aFirst {
+		order = []int{1, 0}
+	}
+	for _, k := range order {
+		t, err := set.GetTemplate(pages[k])
+		vfAssert(err == nil, "page loads")
+		if err != nil {
+			return
+		}
+		var buf bytes.Buffer
+		vars := make(VarMap)
+		vars.Set("n", spelling)
+		err = t.Execute(&buf, vars, nil)
+		vfAssert(err == nil, "page renders")
+		vfNote(buf.String())
+		vfAssert(buf.String() == wants[k][sp], "the relative name resolves against the referring template's directory")
+		asked := false
+		for _, p := range l.seen {
+			if p == wantPath[k][sp] {
+				asked = true
+			}
+			vfAssert(cleanAbs(p), "loader: path is not clean and absolute")
+		}
+		vfAssert(asked, "the loader is asked for the path below the referring template's directory")
+	}
+	vfReach("rendered")
+}
